@@ -632,8 +632,39 @@ def _next_multiple_of(ex, a):
     return res
 
 
+def _div_ceil(ex, a):
+    x, y = a
+    if ex.mode == "bv":
+        ex.obligations.append(Obligation("assert", ex._cur_pc, y != 0, "div_ceil", "div_ceil by zero"))
+        q, r = z3.UDiv(x, y), z3.URem(x, y)
+        return z3.If(r == 0, q, q + 1)
+    ex.obligations.append(Obligation("assert", ex._cur_pc, y != 0, "div_ceil", "div_ceil by zero"))
+    q, r = x / y, x % y
+    return z3.If(r == 0, q, q + 1)
+
+
+def _saturating_sub(ex, a):
+    x, y = a
+    if ex.mode == "bv":
+        return z3.If(z3.UGE(x, y), x - y, z3.BitVecVal(0, x.size()))
+    return z3.If(x >= y, x - y, 0)
+
+
+def _abs_diff(ex, a):
+    x, y = a
+    if ex.mode == "bv":
+        return z3.If(z3.UGE(x, y), x - y, y - x)
+    return z3.If(x >= y, x - y, y - x)
+
+
 INTRINSICS = {
     "core::num::<impl u32>::next_multiple_of": _next_multiple_of,
+    "core::num::<impl usize>::next_multiple_of": _next_multiple_of,
+    "core::num::<impl usize>::div_ceil": _div_ceil, "core::num::<impl u32>::div_ceil": _div_ceil,
+    "core::num::<impl u64>::div_ceil": _div_ceil,
+    "core::num::<impl usize>::saturating_sub": _saturating_sub, "core::num::<impl u32>::saturating_sub": _saturating_sub,
+    "core::num::<impl u64>::saturating_sub": _saturating_sub,
+    "core::num::<impl usize>::abs_diff": _abs_diff, "core::num::<impl u32>::abs_diff": _abs_diff,
     "std::cmp::min::<usize>": _min, "std::cmp::max::<usize>": _max,
     "std::cmp::min::<u32>": _min, "std::cmp::max::<u32>": _max,
     "std::cmp::min::<u64>": _min, "std::cmp::max::<u64>": _max,
